@@ -527,7 +527,21 @@ func init() {
 			}
 			return VStr{IsHexOf: true, HexOf: append([]Term{}, bs...)}
 		}
-		m["fmt.Sprintf"] = func(ex *Exec, fr *frame, cc *ssa.CallCommon, a []Value) Value { return ex.freshAtom("fmtstr") }
+		// fmt.Sprintf: an injective function of (format, arguments) when the arguments can be flattened
+		m["fmt.Sprintf"] = func(ex *Exec, fr *frame, cc *ssa.CallCommon, a []Value) Value {
+			f, ok := a[0].(VStr)
+			if !ok || f.Conc == nil {
+				return ex.freshAtom("fmtstr")
+			}
+			var flat []Term
+			for _, arg := range sliceElems(a[1]) {
+				if !ex.flattenVal(arg, &flat) {
+					return ex.freshAtom("fmtstr")
+				}
+			}
+			t := ex.injectiveAtom("sprintf:"+*f.Conc, flat)
+			return VStr{Atom: &t}
+		}
 		m["fmt.Sprint"] = m["fmt.Sprintf"]
 		m["fmt.Println"] = func(ex *Exec, fr *frame, cc *ssa.CallCommon, a []Value) Value {
 			return VTuple{VInt{IntC(0)}, nilErr()}
